@@ -39,24 +39,27 @@ Opts(s) == CASE s = 1 -> <<Opt(<<U, U, U>>, -1), Opt(<<U, U, U>>, -1)>>
 
 K == [std |-> <<TRUE, TRUE, TRUE>>, hasInput |-> FALSE]
 RJ(r) == <<r.t, r.h, r.f, r.p>>
+\* (each thread also gives its child an extra environment entry of its own: C03 - the child gets the caller's entries plus
+\* exactly that one, and the caller's own environment is what it was when both calls have returned)
 StartCall(h, o) == [e |-> "call", fn |-> "start", h |-> h, argv |-> <<"/bin/c">>, term |-> 2,
                     o |-> [rin |-> RJ(o.rd[1]), rout |-> RJ(o.rd[2]), rerr |-> RJ(o.rd[3]), input |-> o.input,
+                           envb |-> 0, envx |-> <<"T=" \o ToString(h)>>,
                            stop |-> <<<<3, -1>>, <<0, 0>>, <<0, 0>>>>]]
 \* what each child must look like, whatever the interleaving: exactly what it looks like when started alone
 Kid(h, o) ==
   LET v == Verdict(o)
       kk == [K EXCEPT !.hasInput = o.input >= 0]
-  IN [h |-> h, cw |-> ChildWiring(v.eff, kk), cx |-> ChildExtra(v.eff),
+  IN [h |-> h, cw |-> ChildWiring(v.eff, kk), cx |-> ChildExtra(v.eff), cenv |-> <<"P=1", "T=" \o ToString(h)>>,
       inw |-> IF v.eff[1].t = T_PIPE THEN (IF o.input >= 0 THEN 0 ELSE 1) ELSE -1]
 
 Script(s) ==
   LET os == Opts(Scenario) IN
-  << [e |-> "cfg", cap |-> 8, limit |-> 64],
+  << [e |-> "cfg", cap |-> 8, limit |-> 64, env |-> <<"P=1">>],
      [e |-> "call", fn |-> "new", h |-> 1], [e |-> "ret", r |-> 1],
      [e |-> "call", fn |-> "new", h |-> 2], [e |-> "ret", r |-> 1],
      \* (each thread has its own signal mask, and has exactly that mask again when its call has returned: C12)
      [e |-> "conc", sched |-> s, threads |-> << <<StartCall(1, os[1])>>, <<StartCall(2, os[2])>> >>, masks |-> << <<10>>, <<12, 15>> >>,
-      exp |-> [rets |-> << <<1>>, <<1>> >>, kids |-> <<Kid(1, os[1]), Kid(2, os[2])>>, tmasks |-> << <<10>>, <<12, 15>> >>]],
+      exp |-> [rets |-> << <<1>>, <<1>> >>, kids |-> <<Kid(1, os[1]), Kid(2, os[2])>>, tmasks |-> << <<10>>, <<12, 15>> >>, penv |-> <<"P=1">>]],
      [e |-> "call", fn |-> "destroy", h |-> 1], [e |-> "ret", r |-> 0, mon |-> <<>>],
      [e |-> "call", fn |-> "destroy", h |-> 2], [e |-> "ret", r |-> 0, mon |-> <<>>, nfd |-> 3, nalloc |-> 0] >>
 
